@@ -190,7 +190,18 @@ def r2(ctx):
                 sm = e6.is_call(a_[2], "sum", 1)
                 dn = a_[3]
                 ln = e6.is_call(dn[1], "len", 1) if isinstance(dn, tuple) and dn and dn[0] == "cast" and dn[2] == "f32" else None
-                if sm and ln and e6.strip_upd(sm[0]) == e6.strip_upd(ln[0]):
+                mp_ = e6.is_call(sm[0], "map", 2) if sm else None
+                if mp_ and ln and isinstance(mp_[1], tuple) and mp_[1][0] == "closure" and e6.strip_upd(mp_[0]) == e6.strip_upd(ln[0]):
+                    # the k-th components summed straight from the list of pairs: sum(pairs.iter().map(|(l, a)| l)) / pairs.len()
+                    Sc_ = Ev.loop_summaries.get("cl%s" % (mp_[1][1],))
+                    lv_ = [q_ for q_ in (Sc_["paths"] if Sc_ else []) if q_.exit is None]
+                    elc_ = ("elem", mp_[0], "cl%s" % (mp_[1][1],))
+                    if Sc_ and len(lv_) == 1 and len(Sc_["paths"]) == 1 and not lv_[0].pc and not lv_[0].eff and e6.strip_upd(lv_[0].val) in (("proj", elc_, k_), ("un", "Deref", ("proj", elc_, k_))):
+                        seqs.append(e6.strip_upd(mp_[0]))
+                        good = True
+                    else:
+                        okm = False
+                elif sm and ln and e6.strip_upd(sm[0]) == e6.strip_upd(ln[0]):
                     R_ = component(sm[0], k_, P_)
                     if R_ is not None:
                         seqs.append(R_)
